@@ -79,7 +79,7 @@ def forbid(key):
 def c18(tier, seed):
     H = ["inputmc/c18.c"]
     jobs = [Job("small-len1", H, ["small", 1, 0, 256], weight=0.01), Job("small-len2", H, ["small", 2, 0, 256], weight=0.2),
-            Job("file", H, ["file"], weight=2),
+            Job("file", H, ["file"], weight=2), Job("hugelen", H, ["hugelen", 1 if tier == "thorough" else 0], flavour="plain", weight=20),
             Job("fileenv", H, ["fileenv", 3 if tier == "thorough" else 2], wraps=["read", "fstat"], cflags=["-DC18_ENV=1"], weight=3)]
     n = 32
     for i in range(n):
@@ -104,6 +104,7 @@ def c19(tier, seed):
     jobs = [Job(m, H, [m] + t, weight=w) for m, w in [("trim", 3), ("unchar", 1), ("copy", 2), ("tok", 3), ("gets", 3), ("misc", 2), ("dup", 2)]]
     for i in range(14):
         jobs.append(Job("replace-%02d" % i, H, ["replace", i] + t, weight=2))
+    jobs.append(Job("replacebig", H, ["replacebig"], flavour="plain", weight=2))   # no sanitizer: the worst-case buffer of the repaired code is 4 GiB of untouched pages
     jobs.append(bigfmt_job("qstring"))      # qstrdupf / qstrcatf across the 1024 * 2^k growth thresholds of the formatting buffer
     return jobs
 
